@@ -115,7 +115,7 @@ func genReply(rng *rand.Rand, depth int, big int) []byte {
 		return StatusReply(s)
 	case 1:
 		p := errPrefixes[rng.Intn(len(errPrefixes))]
-		msgs := []string{" something went wrong", "", " Operation against a key holding the wrong kind of value", " x"}
+		msgs := []string{" something went wrong", "", " Operation against a key holding the wrong kind of value", " x", " invalid expire time in 'set' command", " invalid cursor", " syntax error"}
 		return ErrReply(p + msgs[rng.Intn(len(msgs))])
 	case 2:
 		vals := []int64{0, 1, -1, 42, 9223372036854775807, -9223372036854775808, 1000000}
